@@ -72,6 +72,8 @@ def run(rep, tier):
     rep.rule("R7", "NULL terminator distinguishable; dict reader terminates only on it")
     rep.rule("R9", "TYPE_LONG: |n| 16-bit digits are read, digit j contributes digit << 15*j, the result is negated exactly when n < 0")
     rep.rule("R8", "interned-string table discipline")
+    rep.rule("R10", "load_code hands its caller's stream itself to the unmarshaller (only a bytes argument is wrapped) and reads nothing from it on its own, so the stream "
+                    "position after the call is the end of the marshalled object")
     T = tables()
     acc, readers = reader_obligations(rep, T)
     um, cls, tbl = unmarshaller(T)
@@ -214,6 +216,43 @@ def run(rep, tier):
     sub6 = SubReport("C06", tier=tier)
     c06.run(sub6, "quick")
     merge_sub(rep, sub6, "R7", "C06", only_rules=("R1", "R2", "R4"))
+    # ---------------------------------------------------------------- R10 load_code reads from the caller's own stream
+    from ..sve import Spec as _Spec, Sym as _Sym, Guard as _Guard, neg as _neg, show as _show
+    lc = T.F.modules["xdis.unmarshal"].ns.get("load_code")
+    if lc is None:
+        raise AnalysisError("anchor vanished: xdis.unmarshal.load_code")
+    ctor_args = []
+
+    def lc_hook(spec, name, fv, args, kw, node):
+        if name.endswith("_VersionIndependentUnmarshaller"):
+            ctor_args.append(args)
+            return _Sym("um", "obj!")
+        if name.endswith(".load"):
+            return _Sym("code", "obj!")
+        return NotImplemented
+    fp = _Sym("fp", "stream")
+    sp_lc = _Spec(T.F, hooks=[lc_hook])
+    sp_lc.run(lc, [fp, 3413])
+
+    def arms_(v, conds):
+        if isinstance(v, _Guard):
+            return arms_(v.a, conds + (v.cond,)) + arms_(v.b, conds + (_neg(v.cond),))
+        return [(conds, v)]
+    bad_lc = []
+    if len(ctor_args) != 1:
+        bad_lc.append("the unmarshaller is constructed %d times" % len(ctor_args))
+    else:
+        for conds, v in arms_(ctor_args[0][0], ()):
+            ctext = [_show(c) for c in conds]
+            if v is fp:
+                continue
+            if _show(v) == "call(opaque:io.BytesIO, fp)" and any(c.startswith("call('isinstance', fp, <class 'bytes'>") or c.startswith("call('isinstance', fp, (<class 'bytes'>") for c in ctext):
+                continue  # a bytes argument is wrapped; nothing of a caller's stream is consumed
+            bad_lc.append("%s when %s" % (_show(v)[:70], " and ".join(ctext) or "always"))
+    early = [e for e in sp_lc.effects if "attr(fp, 'read')" in repr(e) or "attr(fp, 'seek')" in repr(e)]
+    rep.ob("R10", "xdis.unmarshal.load_code", "reads-from-callers-stream", not bad_lc and not early, expected="the unmarshaller is given fp itself (a bytes argument wrapped in BytesIO); load_code reads nothing from fp on its own",
+           derived=bad_lc[:3] + [repr(e)[:80] for e in early[:2]] or "fp",
+           msg="load_code does not unmarshal from the caller's stream (%s): the file position after the call is not the end of the marshalled object" % "; ".join(bad_lc[:2] + [repr(e)[:60] for e in early[:1]]))
     rep.assumptions = ["reference/marshal_format.json and code_layout.json (hand-encoded from marshal.c; validated by an independent reader on CPython 2.7/3.6-3.13 dumps and the repo's .pyc corpus; the 2.0 layout has no sample)",
                        "value equality of the fields (float bits, big-int arithmetic), 'whole payload consumed', PyPy/Graal-specific layouts and the native fast path are not decided"]
 
